@@ -279,6 +279,10 @@ def check_odometer(ctx: Ctx, rule: str):
 
 def check_extend(ctx: Ctx, rule: str):
     for qn in ("extend_right_alignments", "extend_right_disorders"):
+        if qn not in ctx.model.functions:
+            ctx.undecided(rule, None, None, f"growth helper {qn} no longer exists: the buffer-growth argument does not apply to this design",
+                          construct=qn, key=f"extend:{qn}")
+            continue
         f = ctx.fn(qn, rule)
         arr, n = f.params
         rets = [s for s in f.node.body if isinstance(s, ast.Return)]
@@ -675,8 +679,10 @@ def _check_append(ctx, k: K, f: FuncInfo, ML: ast.For, FI: ast.If, cname: str, t
     # no other writes to i / buffers inside the loop
     others = [s for s in ast.walk(ML) if isinstance(s, (ast.Assign, ast.AugAssign)) and s not in st and s is not incs[0]
               and any(norm(t) == ivar for t in (s.targets if isinstance(s, ast.Assign) else [s.target]))]
-    k.check("append-unique", not others, others[0] if others else incs[0], "nothing else writes the fill index",
-            "the fill index is written elsewhere in the enumeration loop")
+    k.check("append-unique", not others, others[0] if others else incs[0], "nothing else writes the fill index: it counts the stored candidates and is >= 1 after a store",
+            f"the fill index is also written by `{norm(others[0]) if others else ''}`: the final cut [: {ivar} - 1] means 'drop the last stored candidate' "
+            f"only while {ivar} counts the candidates of the buffer being cut and is >= 1; after such a write the cut can become [:-1] of a fresh "
+            f"buffer (all-empty candidate kept, garbage rows appended)")
     k.facts2 = {"ivar": ivar, "dis": dis_buf, "al": al_buf}
     if dis_buf is None or al_buf is None:
         return
@@ -723,6 +729,8 @@ def _check_append(ctx, k: K, f: FuncInfo, ML: ast.For, FI: ast.If, cname: str, t
                 g_al = norm(s.value.args[1])
         if isinstance(s, ast.AugAssign) and norm(s.target) == cap and isinstance(s.op, ast.Add):
             g_cap = norm(s.value)
+    if g_dis is None and g_al is None:
+        return k.undecided("growth-same", G, "buffers are not grown through extend_right_*: the capacity-invariant argument does not apply to this design")
     same = g_dis is not None and g_dis == g_al == g_cap
     k.check("growth-same", same, G, "both buffers and the capacity grow by the same amount",
             f"buffers and capacity grow differently (disorders +{g_dis}, alignments +{g_al}, capacity +{g_cap}): the invariant "
@@ -759,6 +767,14 @@ def _check_final(ctx, k: K, f: FuncInfo, ML: ast.For, c2n_name: str, n_name: str
             return to_lin(sx.upper) if sx is not None and sx.lower is None and sx.upper is not None and sx.step is None else None
         except ZUnsupported:
             return None
+    if dis not in sl or al not in sl:
+        # the cut may be applied inside another expression (e.g. handed to a helper)
+        for stx in after:
+            for v in ast.walk(stx):
+                if isinstance(v, ast.Subscript) and isinstance(v.slice, ast.Slice) and norm(v.value) in (dis, al):
+                    sl.setdefault(norm(v.value), v.slice)
+    if dis not in sl or al not in sl:
+        return k.undecided("final-slice", next(iter(after), None), "no final cut of the result buffers found after the enumeration loop")
     ud, ua = upper(sl.get(dis)), upper(sl.get(al))
     want = Lin.atom(ivar) - Lin.num(1)
     k.check("final-slice", ud == want and ua == want, next(iter(after), None),
